@@ -1148,6 +1148,40 @@ theorem run_relabel {D D' : Data α} {S S' : Services α} {o : NumOps α} {X : L
   simp only [Prod.mk.injEq] at hrep
   refine ⟨rfl, hrep.2, hrep.1, rfl, rfl, rfl, hweights, hten, arrange o M0, hM1len, hMeq, hM'eq, hfactors⟩
 
+/-- the hypotheses on the second problem, from the data laws of C02 for `X` and `permute X p` -/
+theorem relabelHyp_of_laws {D D' : Data α} {S S' : Services α} {X : List Nat → α} {p : List Nat}
+    (hp : isPermOf p D.shape.length = true) (hD : DataLaws D X)
+    (hD' : DataLaws D' (fun j' => X (gather j' (invPerm p)))) (hs : D'.shape = gather D.shape p)
+    (hnorm : D'.norm = D.norm) (hm : MttkrpShaped D) (hm' : MttkrpShaped D')
+    (hsolve : ∀ k < D.shape.length, ∀ Y B, S'.solve k Y B = S.solve (p.getD k 0) Y B) :
+    RelabelHyp D D' S S' p :=
+  ⟨hp, hs, hnorm, fun R U hU k hk => mttkrp_relabel hp hD hD' hs hm hm' hU hk, hsolve⟩
+
 end wholerun
+
+/-! ## 10. `fixsigns()` is not relabelling-equivariant -/
+
+section counterexample
+
+/-- ℚ as the number system (only `<` and `abs` matter for `fixsigns`) -/
+def ratOps : NumOps ℚ :=
+  { sqrt := id, abs := fun x => if x < 0 then -x else x, lt := fun a b => decide (a < b),
+    isZero := fun a => decide (a = 0), ofNat := fun n => (n : ℚ) }
+
+/-- a one-component model (positive weight) whose three columns all have a negative dominant entry — the
+sign pattern CP-ALS arrives at for data `−a∘b∘c`, `a, b, c > 0`, from an all-negative start -/
+def negK : Ktensor ℚ := ⟨[2], [[[-1]], [[-3], [-4]], [[-4], [-3]]]⟩
+
+/-- `fixsigns()` flips the first two of the three negative modes — of `negK` modes 0 and 1, of its
+relabelling by `p = [2, 0, 1]` the modes `p[0] = 2` and `p[1] = 0`: the results are not relabellings of
+each other, although both denote the same array. -/
+theorem relabel_fixsigns_counterexample :
+    fixsigns ratOps (relabelK [2, 0, 1] negK) ≠ relabelK [2, 0, 1] (fixsigns ratOps negK) ∧
+    (fixsigns ratOps negK).factors = [[[1]], [[3], [4]], [[-4], [-3]]] ∧
+    (fixsigns ratOps (relabelK [2, 0, 1] negK)).factors = [[[4], [3]], [[1]], [[-3], [-4]]] ∧
+    (negModes ratOps negK 0).length = 3 := by
+  decide
+
+end counterexample
 
 end Pyttb.CpAls
